@@ -111,7 +111,12 @@ func (t *TransactionManager) Rollback(ctx context.Context, trans *Transaction) e
 	t.tmMutex.Lock()
 	defer t.tmMutex.Unlock()
 	VerifYieldPoint("timer:manager-locked")
-	_, err := t.rollbacker.TransactionRollback(ctx, trans, false)
+	// the transaction might have been confirmed or canceled while the timer was waiting for the lock
+	if t.transaction != trans {
+		log.Infof("Transaction: %s - already resolved, rollback skipped", trans.transactionId)
+		return nil
+	}
+	_, err := t.rollbacker.TransactionRollback(ctx, trans.GetRollbackTransaction(), false)
 
 	t.transaction = nil
 
